@@ -397,6 +397,10 @@ func (e *Env) ident(name string) Term {
 			}
 		}
 	}
+	if name == "cov" && fv.C != nil && len(fv.C.Sites) > 0 {
+		// ghost: input positions accounted for by the appends so far (site clauses)
+		return fv.ghostTerm(e.st, "cov", SMath)
+	}
 	if v, ok := ghostConsts[name]; ok {
 		return Term{S: fmt.Sprint(v), Sort: SMath}
 	}
